@@ -3,6 +3,7 @@ package rules
 
 import (
 	"sort"
+	"strings"
 
 	"verif/checker/core"
 )
@@ -21,7 +22,75 @@ type Rule struct {
 
 var registry []*Rule
 
-func Register(r *Rule) { registry = append(registry, r) }
+// alsoDecides: obligations that are evidence for one more property than the rule's source assigns
+// them — each line was found by a seeded change that broke the property on the right and was
+// reported, by the obligation on the left, under another property only. The breakage the obligation
+// describes is the same; the line says why it is also a breakage of that property.
+var alsoDecides = []struct {
+	rule, keyPrefix string
+	props           []string
+	why             string
+}{
+	{"R-ALIAS", "unquote:fresh-flag", []string{"C02"}, "a string decoded with the hints of another buffer is unescaped wrongly: the decoded value differs"},
+	{"R-TAGUSE", "taguse:consulted:repeated", []string{"C07"}, "elements written with another wire type than the decoder expects are a type-mismatched input to it"},
+	{"R-COW", "cache:proto.", []string{"C07"}, "a concurrent map write in the codec cache is a fatal fault of Unmarshal"},
+	{"R-COW", "published-map-updated:proto.", []string{"C07"}, "as above"},
+	{"R-SMALL", "thrift-reset:", []string{"C08"}, "a Decoder that keeps the previous protocol's features misreads well-formed input of the new one"},
+	{"R-LOOPSTATE", "loopstate:thrift.readStruct", []string{"C08"}, "a stale delta base makes the skip path attribute the wrong ids: unknown fields are no longer skipped"},
+	{"R-SMALL", "delta-base:reader", []string{"C08"}, "as above"},
+	{"R-TOKEN", "token:stack-acquire-empty", []string{"C09"}, "a pooled stack that arrives with content makes a Tokenizer depend on who used the pool before"},
+	{"R-INPUTRO", "input:json.", []string{"C11", "C14"}, "input written in place is the Decoder's read buffer: the values that follow in the stream, and a second parse under other flags, see other bytes"},
+	{"R-BUFWRITE", "proto.encodeTag", []string{"C12"}, "a tag written wrongly is not the encoding of the message"},
+	{"R-SMALL", "raw-varint-byte:proto.encodeTag", []string{"C12"}, "as above"},
+	{"R-SMALL", "proto:wantzero-dropped-on-emission", []string{"C12"}, "a zero element dropped or kept at the wrong place changes what the reference implementation decodes"},
+	{"R-POOL", "pool:scrub-before-put@json.(encoder)", []string{"C15"}, "stale entries of the pooled scratch are written after the caller's prefix in place of the value"},
+}
+
+func Register(r *Rule) {
+	for _, ad := range alsoDecides {
+		if ad.rule != r.ID {
+			continue
+		}
+		for _, p := range ad.props {
+			has := false
+			for _, q := range r.Props {
+				if q == p {
+					has = true
+				}
+			}
+			if !has {
+				r.Props = append(r.Props, p)
+			}
+		}
+	}
+	run := r.Run
+	id := r.ID
+	r.Run = func(c *core.Ctx) []core.Obligation {
+		out := run(c)
+		for i := range out {
+			for _, ad := range alsoDecides {
+				if ad.rule != id || !strings.HasPrefix(out[i].Key, ad.keyPrefix) {
+					continue
+				}
+				props := append([]string{}, out[i].Props...)
+				for _, p := range ad.props {
+					has := false
+					for _, q := range props {
+						if q == p {
+							has = true
+						}
+					}
+					if !has {
+						props = append(props, p)
+					}
+				}
+				out[i].Props = props
+			}
+		}
+		return out
+	}
+	registry = append(registry, r)
+}
 
 func All() []*Rule {
 	out := append([]*Rule(nil), registry...)
